@@ -421,6 +421,22 @@ def acyclic_paths(g: CFG, start: int, stops: Callable[[int], bool], skip_inner_l
     return out
 
 
+def simple_bindings(node: ast.AST):
+    """(name, value expression) for every plain binding below `node`: `x = e`, `x: T = e`, and the pairs of `a, b = e1, e2`"""
+    for n in ast.walk(node):
+        if isinstance(n, ast.Assign):
+            for t in n.targets:
+                if isinstance(t, ast.Name):
+                    yield t.id, n.value, n
+                elif isinstance(t, (ast.Tuple, ast.List)) and isinstance(n.value, (ast.Tuple, ast.List)) and len(t.elts) == len(n.value.elts) \
+                        and not any(isinstance(e, ast.Starred) for e in list(t.elts) + list(n.value.elts)):
+                    for te, ve in zip(t.elts, n.value.elts):
+                        if isinstance(te, ast.Name):
+                            yield te.id, ve, n
+        elif isinstance(n, ast.AnnAssign) and n.value is not None and isinstance(n.target, ast.Name):
+            yield n.target.id, n.value, n
+
+
 def stmts_in(body: List[ast.stmt]) -> Iterable[ast.stmt]:
     for s in body:
         yield s
